@@ -3,6 +3,7 @@ package main
 import (
 	"encoding/json"
 	"fmt"
+	"io/ioutil"
 	"os"
 	"sort"
 )
@@ -84,4 +85,17 @@ func sortedU16(xs []uint16) []uint16 {
 func die(err error) {
 	fmt.Fprintln(os.Stderr, err)
 	os.Exit(2)
+}
+
+// setCurrent records the input a monitor is about to hand to the engine (file named by
+// VERIF_CURRENT): when an engine goroutine panics the process dies, and the driver reports this
+// input as the failing one.
+func setCurrent(in map[string]interface{}) {
+	path := os.Getenv("VERIF_CURRENT")
+	if path == "" {
+		return
+	}
+	if b, err := json.Marshal(in); err == nil {
+		_ = ioutil.WriteFile(path, b, 0644)
+	}
 }
